@@ -2482,6 +2482,11 @@ class NetCDFWrite(IOWrite):
 
         ncvar = kwargs["varname"]
 
+        if kwargs.get("datatype") in (str, "S1"):
+            # Byte order has no meaning for string and character
+            # data, and the netCDF library refuses to set it
+            kwargs["endian"] = "native"
+
         g["nc"][ncvar] = g["netcdf"].createVariable(**kwargs)
 
     def _write_grid_mapping(self, f, ref, multiple_grid_mappings):
